@@ -342,6 +342,41 @@ pub const RULES: &[Rule] = &[
         },
     },
     Rule { name: "FeatureRecord.feature_tag~feature_params", keys: &["feature_tag", "feature"], check: feature_params_match },
+    // meta: the record's tag selects how the data is READ ('dlng'/'slng' =
+    // ScriptLangTags, anything else = bytes); validate() only rejects
+    // (dlng|slng, Other)
+    Rule {
+        name: "DataMapRecord.tag~Metadata-variant",
+        keys: &["tag", "data"],
+        check: |o| {
+            let tag = o.get("tag")?.as_str()?;
+            let data = through_obj(o.get("data")?)?.as_object()?;
+            let lang = tag == "dlng" || tag == "slng";
+            if data.contains_key("ScriptLangTags") {
+                Some(lang)
+            } else if data.contains_key("Other") {
+                Some(!lang)
+            } else {
+                None
+            }
+        },
+    },
+    // meta: ScriptLangTag::new performs no validation ("TK open issue" in
+    // write-fonts/src/tables/meta.rs); tags are written comma-separated and
+    // the reader splits at commas and trims spaces and commas
+    Rule {
+        name: "Metadata.ScriptLangTags-wellformed",
+        keys: &["ScriptLangTags"],
+        check: |o| {
+            for t in o.get("ScriptLangTags")?.as_array()? {
+                let t = t.as_str()?;
+                if t.is_empty() || t.contains(',') || t.starts_with(' ') || t.ends_with(' ') {
+                    return Some(false);
+                }
+            }
+            Some(true)
+        },
+    },
 ];
 
 /// Collect the names of all violated rules anywhere in `j`.
@@ -390,6 +425,10 @@ fn obj_arr_mut<'a>(o: &'a mut Obj, key: &str) -> Option<&'a mut Vec<Value>> {
 
 /// Resize by cycling the existing elements (or `filler` if there is none).
 pub fn resize_cycling(a: &mut Vec<Value>, n: usize, filler: &Value) {
+    // never build huge arrays: leave the value inconsistent instead
+    if n > 70_000 {
+        return;
+    }
     if a.len() > n {
         a.truncate(n);
         return;
@@ -613,6 +652,21 @@ fn fix_by_name(name: &str, o: &mut Obj) -> bool {
             for k in keys {
                 if let Some(a) = arr_mut(o, k) {
                     a.truncate(n);
+                }
+            }
+            true
+        }
+        "DataMapRecord.tag~Metadata-variant" => {
+            let lang = o.get("data").and_then(through_obj).and_then(|d| d.as_object()).map(|d| d.contains_key("ScriptLangTags")).unwrap_or(false);
+            o.insert("tag".into(), Value::String(if lang { "dlng".into() } else { "appl".into() }));
+            true
+        }
+        "Metadata.ScriptLangTags-wellformed" => {
+            let Some(a) = arr_mut(o, "ScriptLangTags") else { return false };
+            for t in a.iter_mut() {
+                if let Some(s) = t.as_str() {
+                    let fixed: String = s.chars().filter(|c| *c != ',' && *c != ' ').collect();
+                    *t = Value::String(if fixed.is_empty() { "und".into() } else { fixed });
                 }
             }
             true
